@@ -9,7 +9,7 @@ Scratch worktrees live under /tmp and are removed. Nothing here is a registered 
 import glob, json, os, re, subprocess, sys, tempfile
 from concurrent.futures import ThreadPoolExecutor
 
-ENV = dict(os.environ, GOFLAGS="-mod=mod", GOPROXY="off", GOSUMDB="off", GOTOOLCHAIN="local")
+ENV = dict(os.environ, GOFLAGS="-mod=mod -trimpath", GOPROXY="off", GOSUMDB="off", GOTOOLCHAIN="local")
 ENV.pop("GOWORK", None)
 
 
@@ -85,3 +85,4 @@ def main():
 
 if __name__ == "__main__":
     main()
+    subprocess.run("/verif/tools/trimcache.sh", shell=True)
